@@ -116,6 +116,48 @@ pub fn gen_vectors(recorded_from: &str) -> VectorFile {
             });
         }
     }
+    // vectors containing identity commitments (value 0, all-zero blinding): zero padding of an aggregate, and a single one
+    for (i, (bits, m, cap, ext, zero_at)) in [(8usize, 4usize, 4usize, 1usize, 3usize), (64, 2, 2, 2, 1), (32, 1, 1, 2, 0), (4, 4, 8, 3, 0), (16, 1, 2, 1, 0), (2, 2, 2, 6, 1)].iter().enumerate() {
+        let params = RangeParameters::init(*bits, *cap, ristretto::create_pedersen_gens_with_extension_degree(ext_of(*ext))).expect("params");
+        let mut rng = chacha(9000 + i as u64);
+        let mut values = vec![];
+        let mut blind: Vec<Vec<Scalar>> = vec![];
+        for j in 0..*m {
+            if j == *zero_at {
+                values.push(0u64);
+                blind.push(vec![Scalar::ZERO; *ext]);
+            } else {
+                values.push(crate::gen::mix(77, (i * 10 + j) as u64) & crate::gen::mask_of(*bits));
+                blind.push((0..*ext).map(|_| crate::gen::rand_scalar(&mut rng)).collect());
+            }
+        }
+        let commitments: Vec<RistrettoPoint> = values.iter().zip(blind.iter()).map(|(v, r)| params.pc_gens().commit(&Scalar::from(*v), r).unwrap()).collect();
+        let promises: Vec<Option<u64>> = values.iter().map(|v| if *v > 2 { Some(v / 2) } else { None }).collect();
+        let seed = if *m == 1 { Some(crate::gen::rand_scalar(&mut rng)) } else { None };
+        let st = RangeStatement::init(params, commitments.clone(), promises.clone(), seed).expect("statement");
+        let w = RangeWitness::init(values.iter().zip(blind.iter()).map(|(v, r)| CommitmentOpening::new(*v, r.clone())).collect()).expect("witness");
+        let ctx = CtxSpec { label: (i % 6) as u8, msgs: vec![] };
+        let rng_seed = 5000 + i as u64;
+        let proof = RangeProof::prove_with_rng(&mut ctx.transcript(), &st, &w, &mut RngSpec::ChaCha(rng_seed).make()).expect("prove");
+        let (res, ev) = tapped(|| RangeProof::verify_batch(&mut [ctx.transcript()], &[st.clone()], &[proof.clone()], VerifyAction::RecoverAndVerify));
+        let masks = res.expect("verify");
+        out.push(Vector {
+            bits: *bits,
+            m: *m,
+            cap: *cap,
+            ext: *ext,
+            values,
+            promises,
+            blindings: blind.iter().map(|r| r.iter().map(|s| hex(s.as_bytes())).collect()).collect(),
+            seed: seed.map(|s| hex(s.as_bytes())),
+            ctx,
+            rng_seed,
+            commitments: commitments.iter().map(|c| hex(&c.enc())).collect(),
+            proof: hex(&proof.to_bytes()),
+            mask: masks[0].as_ref().map(|m| m.blindings().unwrap().iter().map(|s| hex(s.as_bytes())).collect()),
+            layout: layout(&ev).into_iter().filter(|(l, _, _)| l != "proof").collect(),
+        });
+    }
     VectorFile {
         recorded_from: recorded_from.to_string(),
         vectors: out,
